@@ -305,35 +305,57 @@ pub fn value_grid(rng: &mut Rng, thorough: bool, f: &mut dyn FnMut(bool, u128)) 
     }
 }
 
+fn typed_leaf<S: bcder::decode::Source>(which: u8, c: &mut Constructed<S>) -> Result<(), bcder::decode::DecodeError<S::Error>> {
+    use bcder::{BitString, Integer, OctetString, Oid, Unsigned, Utf8String};
+
+    match which {
+        0 => c.take_bool().map(|_| ()), 1 => c.take_null(), 2 => c.take_u8().map(|_| ()), 3 => c.take_u16().map(|_| ()),
+        4 => c.take_u32().map(|_| ()), 5 => c.take_u64().map(|_| ()),
+        6 => c.take_primitive_if(Tag::INTEGER, |p| p.to_i8()).map(|_| ()), 7 => c.take_primitive_if(Tag::INTEGER, |p| p.to_i16()).map(|_| ()),
+        8 => c.take_primitive_if(Tag::INTEGER, |p| p.to_i32()).map(|_| ()), 9 => c.take_primitive_if(Tag::INTEGER, |p| p.to_i64()).map(|_| ()),
+        10 => c.take_primitive_if(Tag::INTEGER, |p| p.to_i128()).map(|_| ()), 11 => c.take_primitive_if(Tag::INTEGER, |p| p.to_u128()).map(|_| ()),
+        12 => Integer::take_from(c).map(|_| ()), 13 => Unsigned::take_from(c).map(|_| ()), 14 => Oid::take_from(c).map(|_| ()),
+        15 => Oid::skip_in(c), 16 => BitString::take_from(c).map(|_| ()), 17 => BitString::skip_in(c),
+        18 => OctetString::take_from(c).map(|_| ()), 19 => Utf8String::take_from(c).map(|_| ()),
+        20 => c.take_opt_bool().map(|_| ()), 21 => c.take_opt_null().map(|_| ()), 22 => c.take_opt_u8().map(|_| ()),
+        23 => c.skip_u8_if(5), 24 => c.take_primitive(|_, p| p.skip_all()), 25 => c.take_primitive(|_, p| p.take_all().map(|_| ())),
+        26 => c.take_primitive(|_, p| p.slice_all().map(|_| ())), _ => c.take_primitive(|_, p| { use bcder::decode::Source; p.take_u8()?; p.skip_all() }),
+    }
+}
+
 /// 1407: every typed reader on a value whose header announces more content than the input holds
 /// (the input ends inside the value, alone or inside over-announced SEQUENCEs): always an error.
 fn truncated_case(em: &mut Emitter, which: u8, mode: u8, full: &[u8], cut: usize, wrap: u8) {
-    use bcder::{BitString, Integer, OctetString, Oid, Unsigned, Utf8String};
     let mut data = full[..cut].to_vec();
     // wrap in `wrap` definite SEQUENCEs whose lengths are those of the FULL value (over-announced)
     let mut fl = full.len();
     for _ in 0..wrap { let mut v = vec![0x30u8]; v.extend(crate::gen::ref_len_octets(fl)); fl += v.len(); v.extend(&data); data = v; }
     em.case(1407, &[num_arg(which), num_arg(mode), bytes_arg(&data), num_arg(wrap)], || {
-        fn leaf<S: bcder::decode::Source>(which: u8, c: &mut Constructed<S>) -> Result<(), bcder::decode::DecodeError<S::Error>> {
-            match which {
-                0 => c.take_bool().map(|_| ()), 1 => c.take_null(), 2 => c.take_u8().map(|_| ()), 3 => c.take_u16().map(|_| ()),
-                4 => c.take_u32().map(|_| ()), 5 => c.take_u64().map(|_| ()),
-                6 => c.take_primitive_if(Tag::INTEGER, |p| p.to_i8()).map(|_| ()), 7 => c.take_primitive_if(Tag::INTEGER, |p| p.to_i16()).map(|_| ()),
-                8 => c.take_primitive_if(Tag::INTEGER, |p| p.to_i32()).map(|_| ()), 9 => c.take_primitive_if(Tag::INTEGER, |p| p.to_i64()).map(|_| ()),
-                10 => c.take_primitive_if(Tag::INTEGER, |p| p.to_i128()).map(|_| ()), 11 => c.take_primitive_if(Tag::INTEGER, |p| p.to_u128()).map(|_| ()),
-                12 => Integer::take_from(c).map(|_| ()), 13 => Unsigned::take_from(c).map(|_| ()), 14 => Oid::take_from(c).map(|_| ()),
-                15 => Oid::skip_in(c), 16 => BitString::take_from(c).map(|_| ()), 17 => BitString::skip_in(c),
-                18 => OctetString::take_from(c).map(|_| ()), 19 => Utf8String::take_from(c).map(|_| ()),
-                20 => c.take_opt_bool().map(|_| ()), 21 => c.take_opt_null().map(|_| ()), 22 => c.take_opt_u8().map(|_| ()),
-                23 => c.skip_u8_if(5), 24 => c.take_primitive(|_, p| p.skip_all()), 25 => c.take_primitive(|_, p| p.take_all().map(|_| ())),
-                26 => c.take_primitive(|_, p| p.slice_all().map(|_| ())), _ => c.take_primitive(|_, p| { use bcder::decode::Source; p.take_u8()?; p.skip_all() }),
-            }
-        }
         fn nest<S: bcder::decode::Source>(which: u8, wrap: u8, c: &mut Constructed<S>) -> Result<(), bcder::decode::DecodeError<S::Error>> {
-            if wrap == 0 { leaf(which, c) } else { c.take_sequence(|k| nest(which, wrap - 1, k)) }
+            if wrap == 0 { typed_leaf(which, c) } else { c.take_sequence(|k| nest(which, wrap - 1, k)) }
         }
         let r = catch(|| Constructed::decode(data.as_slice().into_source(), mode_of(mode), |c| nest(which, wrap, c)).is_ok());
         (Ints::new().n(1), match r { Some(false) => Oracle::Pass, Some(true) => Oracle::Fail("value-cut-short-by-the-end-of-input-accepted".into()), None => Oracle::Fail("panic".into()) }, true)
+    });
+}
+
+/// 1408: a typed reader accepts a valid value of its type wherever the value stands: alone, inside a
+/// definite or indefinite SEQUENCE (two levels), followed by a sibling that is then read intact.
+fn context_case(em: &mut Emitter, which: u8, mode: u8, full: &[u8], shape: u8) {
+    let seq = |indef: bool, inner: &[u8]| -> Vec<u8> { let mut v = vec![0x30u8]; if indef { v.push(0x80); v.extend_from_slice(inner); v.extend_from_slice(&[0, 0]); } else { v.extend(crate::gen::ref_len_octets(inner.len())); v.extend_from_slice(inner); } v };
+    let mut with_sib = full.to_vec(); with_sib.extend_from_slice(&[0x05, 0x00]);
+    // shapes: 0 alone+sibling at top level, 1 definite, 2 indefinite, 3 definite in indefinite, 4 indefinite in definite
+    let (data, depth): (Vec<u8>, u8) = match shape { 0 => (with_sib.clone(), 0), 1 => (seq(false, &with_sib), 1), 2 => (seq(true, &with_sib), 1),
+        3 => (seq(true, &seq(false, &with_sib)), 2), _ => (seq(false, &seq(true, &with_sib)), 2) };
+    em.case(1408, &[num_arg(which), num_arg(mode), bytes_arg(&data), num_arg(shape)], || {
+        fn nest<S: bcder::decode::Source>(which: u8, depth: u8, c: &mut Constructed<S>) -> Result<(), bcder::decode::DecodeError<S::Error>> {
+            if depth == 0 { typed_leaf(which, c)?; c.take_null() } else { c.take_sequence(|k| nest(which, depth - 1, k)) }
+        }
+        // only values the reader accepts when they stand alone are required to be accepted in context
+        let alone = catch(|| Constructed::decode(full.into_source(), mode_of(mode), |c| typed_leaf(which, c)).is_ok());
+        if alone != Some(true) { return (Ints::new().n(1), Oracle::None, false) }
+        let r = catch(|| { let mut src = bcder::decode::SliceSource::new(&data); let r = Constructed::decode(&mut src, mode_of(mode), |c| nest(which, depth, c)); (r.is_ok(), src.len()) });
+        (Ints::new().n(1), match r { Some((true, 0)) => Oracle::Pass, Some(_) => Oracle::Fail("valid-value-rejected-or-sibling-disturbed-in-this-context".into()), None => Oracle::Fail("panic".into()) }, true)
     });
 }
 
@@ -349,6 +371,15 @@ pub fn run(em: &mut Emitter, rng: &mut Rng, thorough: bool) {
         for (whiches, full) in fulls.iter() { for &which in whiches.iter() { for mode in 0..3u8 { for wrap in 0..3u8 {
             if mode == 1 && wrap > 0 { continue }
             for cut in 2..full.len() { truncated_case(em, which, mode, full, cut, wrap); }
+            // 1408 (once per reader/value/mode): the complete value in every context the mode allows; the
+            // over-long BOOLEAN/NULL values are not valid and are left out
+            if wrap == 0 && !(full[0] == 0x01 && full[1] != 1) && !(full[0] == 0x05 && full[1] != 0) && which != 23 && which != 27 {
+                for shape in 0..5u8 {
+                    let has_def = matches!(shape, 1 | 3 | 4); let has_indef = matches!(shape, 2 | 3 | 4);
+                    if (mode == 1 && has_def) || (mode == 2 && has_indef) { continue }
+                    context_case(em, which, mode, full, shape);
+                }
+            }
             // the same with a tag the reader does not ask for left out: header only
         }}}}
         let _ = (&rng, thorough);
